@@ -52,6 +52,9 @@ var Palette = []uint32{
 	0x2200ffff, // target >= 2^256: work 0
 	0x0200ffff, // exponent < 3 (target 0xff): giant work 2^248
 	0x03000001, // target 1: work 2^255
+	0x21000001, // exponent 33, one-byte mantissa: target 2^240, work 65535
+	0x2100ffff, // exponent 33, two-byte mantissa: target just below 2^256, work 1
+	0x22000001, // exponent 34, one-byte mantissa: target 2^248, work 255
 }
 
 // MerkleOf derives a merkle root from a seed.
@@ -151,13 +154,19 @@ func drawI32(t *rapid.T, label string, extreme bool) int32 {
 	return rapid.Int32().Draw(t, label)
 }
 
-// DrawBits draws difficulty bits from the palette (90%) or uniformly (10%).
+// DrawBits draws difficulty bits from the palette (90%), uniformly (5%) or from the exponent/mantissa-size lattice (5%).
 func DrawBits(t *rapid.T, o GenOpts) uint32 {
 	if o.NoZeroWork {
 		return rapid.SampledFrom([]uint32{0x1d00ffff, 0x1d00ffff, 0x1d00ffff, 0x1c00ffff, 0x1d00fffe, 0x207fffff}).Draw(t, "bits")
 	}
-	if rapid.IntRange(0, 19).Draw(t, "bitsk") == 0 {
+	switch rapid.IntRange(0, 19).Draw(t, "bitsk") {
+	case 0:
 		return rapid.Uint32().Draw(t, "bitsr")
+	case 1:
+		// lattice: any exponent around the interesting sizes with a mantissa of one, two or three bytes
+		exp := rapid.SampledFrom([]uint32{0, 1, 2, 3, 4, 29, 30, 31, 32, 33, 34, 35, 36, 255}).Draw(t, "bitse")
+		man := rapid.Uint32Range(1, 0x7fffff).Draw(t, "bitsm") >> rapid.SampledFrom([]uint{0, 0, 8, 16}).Draw(t, "bitss")
+		return exp<<24 | man
 	}
 	return rapid.SampledFrom(Palette).Draw(t, "bits")
 }
